@@ -227,7 +227,7 @@ void property1(const pbt::Tape& t, pbt::Ctx& ctx) {
             jacobiEig(m, a, V);
             LD emax = 0; for (int i = 0; i < m; ++i) emax = std::max(emax, std::fabs(a[i * m + i]));
             std::vector<LD> ref(m, 0); bool gap = true;
-            for (int e = 0; e < m; ++e) { LD lam = a[e * m + e]; if (std::fabs(lam) > 1e-6L * emax) { LD pr = 0; for (int i = 0; i < m; ++i) pr += V[i * m + e] * c.verr0[i]; for (int i = 0; i < m; ++i) ref[i] += V[i * m + e] * pr / lam; } else if (std::fabs(lam) > 1e-11L * emax) gap = false; }
+            for (int e = 0; e < m; ++e) { LD lam = a[e * m + e]; if (std::fabs(lam) > 1e-6L * emax) { LD pr = 0; for (int i = 0; i < m; ++i) pr += V[i * m + e] * c.verr0[i]; for (int i = 0; i < m; ++i) ref[i] += V[i * m + e] * pr / lam; } else if (std::fabs(lam) > 1e-14L * emax) gap = false; }   /* numerical rank undecidable: eigenvalue in the grey zone */
             if (gap) { LD d = 0, rn = 0; for (int i = 0; i < m; ++i) { d = std::max(d, std::fabs(ref[i] - pi[i])); rn = std::max(rn, std::fabs(ref[i])); } ctx.label("bilateral:min-norm-checked");
                 if (d > 1e-7L * (1 + rn)) { ctx.fail("PLUS solveBilateral: impulse differs from the minimum-norm solution by " + pbt::str((double)d)); return; } }
             else ctx.label("bilateral:spectrum-gap-unclear");
